@@ -250,6 +250,7 @@ PROPS['C04'] = dict(
              'waiting alone is started as soon as enough is released': 'P: release => wait-pool scan in the next iteration; B for the placement itself',
              'idle pilot starts a fitting waiter; fitting task never failed': 'B (bounded histories); KNOWN FINDING for partition tasks',
              'higher priority first': 'P for the order in which pools are tried (_schedule_waitpool) + B (bounded histories)',
+             'no pool is skipped: a ready waiting task gets a placement attempt in every pass unless a higher-priority one was tried and still waits': 'P',
              'interleaving of cancel requests between loop steps': 'P at the queue boundary (cancel arrives as a queue item) + B'})
 
 PROPS['C09'] = dict(
